@@ -9,10 +9,13 @@ From LV Require Import model.Fetcher spec.FetcherSpec proofs.FetcherProofs.
 Import ListNotations.
 
 (* SAFETY, for every configuration and EVERY event sequence (any interleaving of announcements,
-   receipts, timer deliveries and passes, any oracle answers, any times): every request (peer, id)
+   receipts, timer deliveries and passes, any random choices, any times, any callback answers as long
+   as OnlyInterested answers with ids of the batch it was asked about - [answers_sublist]; the
+   hypothesis is necessary, see fetcher_safety_needs_sublist in proofs/FetcherProofs.v: the fetcher
+   stores and requests whatever the callback returns): every request (peer, id)
    goes to a peer that announced id while id was reported interesting, and id has not since been
    reported received, nor reported uninteresting at a pass - until it is announced anew. *)
-Theorem C16_safety : forall c t0 tr, safe_run c (init t0) [] tr.
+Theorem C16_safety : forall c t0 tr, answers_sublist tr -> safe_run c (init t0) [] tr.
 Proof. exact fetcher_safety. Qed.
 
 (* LIVENESS as a bounded-response invariant.  (1) In every reachable state (non-decreasing clock):
@@ -63,7 +66,32 @@ Theorem C16_liveness_fetching_was_requested_partial : forall c t0 tr id p ft,
   exists ids, In (ft, (p, ids)) (snd (run true c (init t0) tr)) /\ In id ids.
 Proof. exact fetcher_fetching_was_requested. Qed.
 
-(* The end-to-end statement these compose to, NOT proved as one theorem: under timer fairness
+(* (7) The trace-level composition of (1)-(3),(5).  Timer fairness with latency [lat] = [fair_run]: while
+   the timer is armed no event happens later than due + lat, and once its value is in the channel the
+   loop's next action is the pass, within lat.  From ANY reachable state that holds the item, on ANY
+   fair continuation that goes on long enough: if the item stays in the table until the loop's next pass
+   ([held_until_pass]: not received, not evicted), is reported interesting and is younger than
+   ForgetTimeout at that pass, then the loop takes a pass within ArriveTimeout + 2*lat, after which
+   the item's last request is at most ArriveTimeout - GatherSlack old.  (By (6) that entry is a request
+   really emitted.)  So an item announced at t has a request in
+   [t - (Arrive - Slack), t + Arrive + 2*lat]; suspension plays no role because passes ignore it. *)
+Theorem C16_liveness_response_partial : forall c lat t0 t st id tr,
+  cfg_wf c -> (c_slack c <= c_arrive c)%Z -> (0 <= lat)%Z -> reachT c t0 t st ->
+  fair_run c lat st t tr -> held_until_pass c id st tr ->
+  (exists now ev, In (now, ev) tr /\ (t + c_arrive c + 2 * lat < now)%Z) ->
+  (forall now i ch sc, In (now, ETimer i ch sc) tr -> In id i) ->
+  (forall p1 now i ch sc p2 e oldest more, tr = p1 ++ (now, ETimer i ch sc) :: p2 ->
+     lru_find id (ann (fst (run true c st p1))) = Some e -> e_val e = oldest :: more ->
+     (now - a_time oldest <= c_forget c)%Z) ->
+  exists p1 now_p i ch sc p2,
+    tr = p1 ++ (now_p, ETimer i ch sc) :: p2 /\ (now_p <= t + c_arrive c + 2 * lat)%Z /\
+    exists p ft, f_find id (fetching (fst (step true c (fst (run true c st p1)) now_p (ETimer i ch sc)))) = Some (p, ft) /\
+                 (now_p - ft <= c_arrive c - c_slack c)%Z.
+Proof. exact fetcher_response_request. Qed.
+
+(* The end-to-end statement in terms of the environment only (what (7) still takes as hypotheses about the
+   table - the item stays held and young - derived from "not received, stays interesting, cache not
+   overflowing"), which these compose to, NOT proved as one theorem: under timer fairness
    with latency [lat], an item announced at t (reported interesting from then on, not received,
    announcement younger than ForgetTimeout, cache not overflowing) is requested during
    [t, t + 2*ArriveTimeout + 2*lat]. *)
@@ -100,6 +128,15 @@ Proof.
   eexists _, _, _. split; [vm_compute; reflexivity|]. split; [reflexivity|]. split; [vm_compute; discriminate | exact I].
 Qed.
 
+(* non-vacuity of (7): a reachable state, a fair continuation on which the item stays held, and the
+   request it leads to *)
+Example C16_response_nonvacuous :
+  reachT cfg_ex 0%Z 80%Z ex_resp_state /\
+  fair_run cfg_ex 0%Z ex_resp_state 80%Z ex_resp_trace /\
+  held_until_pass cfg_ex 7%N ex_resp_state ex_resp_trace /\
+  snd (run true cfg_ex ex_resp_state ex_resp_trace) = [(400%Z, (1%N, [7%N]))].
+Proof. exact ex_resp_hyps. Qed.
+
 Print Assumptions C16_safety.
 Print Assumptions C16_liveness_pass_pending_partial.
 Print Assumptions C16_liveness_tick_partial.
@@ -107,3 +144,4 @@ Print Assumptions C16_liveness_pass_requests_partial.
 Print Assumptions C16_liveness_notify_requests_partial.
 Print Assumptions C16_liveness_pass_leaves_recent_partial.
 Print Assumptions C16_liveness_fetching_was_requested_partial.
+Print Assumptions C16_liveness_response_partial.
